@@ -6,6 +6,7 @@ CONSTANTS
   MaxDir = 2
   Sizes <- SizesAll
   Dev <- NoDev
+  EnvOn <- EnvNone
   MaxHist = 0
 VIEW view
 INVARIANTS TypeOK OneWriter LockHeld Flushed SentOnWire NoDup Accounted NoGhost Ordered
